@@ -182,6 +182,17 @@ static int run() {
         else s.m->insert_boundary((unsigned)id, bvec, d);
         s.order.push_back(id); if constexpr (kChain && !kIdId && !kIdPos) s.matidx.push_back((long)s.m->get_column_with_pivot((unsigned)id)); else s.matidx.push_back(0); ++s.inserted; return "ins"; }
       if (o == "ids") { s.custom = (t[1] == "custom"); return "ids"; }
+      if (o == "dup") {  // C15: replace the matrix by a copy / moved / swapped version of itself; the source is mutated (copies) and destroyed
+        long k = L(t[1]); std::unique_ptr<MM> n; auto fresh = [&]() { if constexpr (O::is_z2) n.reset(new MM()); else n.reset(new MM(0u, (unsigned)s.p)); };
+        if (k == 0) n.reset(new MM(*s.m));
+        else if (k == 1) { fresh(); *n = *s.m; }
+        else if (k == 2) n.reset(new MM(std::move(*s.m)));
+        else if (k == 3) { fresh(); *n = std::move(*s.m); }
+        else { fresh(); using std::swap; swap(*n, *s.m); }
+        if (k <= 1) {  // the source gets one more vertex before it dies: the copy must not see it
+          std::vector<typename std::conditional<O::is_z2, unsigned, std::pair<unsigned, unsigned> >::type> e; long mx = 0; for (auto& kv : s.dim) mx = std::max(mx, kv.first + 1); mx = std::max(mx, (long)s.inserted);
+          if (!kChain && !s.custom) s.m->insert_boundary(e, 0); else s.m->insert_boundary((unsigned)mx, e, 0); }
+        s.m = std::move(n); return "dup"; }
       if (o == "bars") return bars(s);
       if (o == "ident") return ident(s);
       if (o == "dump") { std::ostringstream q; q << "dump"; for (long j = 0; j < (long)s.order.size(); ++j) { q << " | c" << j << "(id" << s.order[j] << ",cur" << (s.cur.count(s.order[j]) ? s.cur[s.order[j]] : -1) << "):"; for (auto& kv : content(s.m->get_column(colIndex(s, j)), s.p)) q << " " << kv.first;
